@@ -58,7 +58,10 @@ def frames_info():
     global _frames
     if _frames is None:
         from translate import c18 as t
-        _frames = {c["class"]: c for c in t.extract(common.SRC)["classes"]}
+        try:
+            _frames = {c["class"]: c for c in t.extract(common.SRC)["classes"]}
+        except Exception:   # the translator failed closed: no variant can be named, the model side is `false`
+            _frames = {}
     return _frames
 
 
@@ -136,7 +139,7 @@ def gen_instr_case(rng):
 
 
 def gen_cases(rng, tier):
-    mult = 1 if tier == "quick" else 6
+    mult = 1 if tier == "quick" else 16
     out = []
     k = 0
     for kind in L.KINDS:
